@@ -36,6 +36,7 @@ class Replay:
     search_unwind: int = 0
     extra: List[str] = field(default_factory=list)     # constant extra args (e.g. the type name)
     small_define: Optional[str] = None  # -D that restricts inputs to small sizes: used to re-ask for a replayable counterexample
+    leaks: bool = False              # run the driver with LeakSanitizer on (the driver checks with __lsan_do_recoverable_leak_check)
 
 
 @dataclass
